@@ -1162,7 +1162,16 @@ def serial_impl(program):
             if isinstance(n, ast.Call) and isinstance(n.func, ast.Attribute) and n.func.attr == 'extend' and isinstance(n.func.value, ast.Attribute) \
                     and isinstance(n.func.value.value, ast.Name) and n.func.value.value.id == 'self':
                 return q, n.func.value.attr
-    raise AnalysisError('no buffering _receive_impl found (anchor: self.<buffer>.extend(data))')
+    # another spelling of the append (`+=`): the class whose constructor / _connect_impl binds an attribute to a fresh bytearray
+    m = program.mod('ioclient')
+    for q in impls(program, '_receive_impl'):
+        cname = q.split('.')[0]
+        for c in program.mro('ioclient', cname):
+            for n in ast.walk(m.classes[c]):
+                if isinstance(n, ast.Assign) and len(n.targets) == 1 and isinstance(n.targets[0], ast.Attribute) and isinstance(n.targets[0].value, ast.Name) and n.targets[0].value.id == 'self' and isinstance(n.value, ast.Call) and isinstance(n.value.func, ast.Name) \
+                        and n.value.func.id == 'bytearray' and not n.value.args:
+                    return q, n.targets[0].attr
+    raise AnalysisError('no buffering _receive_impl found (anchor: self.<buffer>.extend(data) or an attribute bound to bytearray())')
 
 def _is_buf(e, buf):
     return is_self_attr(e, (buf,))
